@@ -40,6 +40,22 @@ def run(tier, seed):
     if r.rc != 0:
         raise lib.ToolError("Elixir universe generator failed")
     ranges, cross, muts, valid = (lib.read_ndjson(files[k]) for k in ("ranges", "cross", "mut", "valid"))
+    if tier == "thorough":
+        # seeded random 64-bit ranges judged by a transcription of Elixir!ElemsOff into Python integers (no 32-bit limit there)
+        import random
+        rng = random.Random(seed)
+        lo, hi = -(1 << 63), (1 << 63) - 1
+        pick = lambda: rng.choice([rng.randint(lo, hi), rng.randint(-1000, 1000), lo + rng.randint(0, 1000), hi - rng.randint(0, 1000), rng.randint(-(1 << 40), 1 << 40)])
+        for _ in range(3000):
+            f, l = pick(), pick()
+            st = rng.choice([1, -1, 2, -2, 3, 7, -7, 0, rng.randint(1, 1 << 62), -rng.randint(1, 1 << 62), hi, lo, rng.randint(-50, 50)])
+            n = 0 if st == 0 or (st > 0 and f > l) or (st < 0 and f < l) else (abs(l - f) // abs(st)) + 1
+            elems = [f + i * st for i in range(n)] if n <= 40 else []
+            members = [f + i * st for i in {0, n - 1, n // 2} if n > 0 and 0 <= i < n]
+            non = [x for x in {f - 1, f + 1, l + (1 if st > 0 else -1), f + st * n} if lo <= x <= hi and not (n > 0 and st != 0 and (x - f) % st == 0 and 0 <= (x - f) // st < n)]
+            cross.append({"first": str(f), "last": str(l), "step": str(st), "len": str(n), "elems": [str(e) for e in (elems or members)] if n <= 40 else [], "nonmembers": [str(x) for x in non],
+                          "members": [str(m) for m in members]})
+        lib.write_ndjson(files["cross"], cross)
     props = lib.read_ndjson(files["props"])
     lib.harness(["elixir-run", files["ranges"], files["cross"], files["mut"], files["valid"], files["obs"], files["props"]])
     obs = lib.read_ndjson(files["obs"])
@@ -81,7 +97,7 @@ def run(tier, seed):
                     v.violation("iteration yields other elements than the range has", {**case, "iterated": o["iter"][:6], "elements": [str(e) for e in exp[:6]]})
             if want_len == 0 and got:
                 v.violation("iteration of an empty range yields elements", {**case, "iterated": o["iter"][:6]})
-        probes = [(anch(p["v"]), p["member"]) for p in rec.get("probes", [])] + [(e, True) for e in elems] + [(anch(e), False) for e in rec.get("nonmembers", [])]
+        probes = [(anch(p["v"]), p["member"]) for p in rec.get("probes", [])] + [(e, True) for e in elems] + [(anch(e), False) for e in rec.get("nonmembers", [])] + [(anch(e), True) for e in rec.get("members", [])]
         got_c = {int(p["v"]): p["contains"] for p in o["probes"] + o["elems_contains"] + o["nonmembers_contains"]}
         for val, member in probes:
             g = got_c.get(val)
